@@ -80,6 +80,10 @@ func (e *effState) writes(fn *ssa.Function) []paramWrite {
 		if len(p) == 0 {
 			return
 		}
+		// element of a slice held by a local copy of a struct taken from the parameter's memory
+		if r2, p2, ok := structCopySource(root); ok && strings.Contains(strings.Join(p, "."), "[") {
+			root, p = r2, append(append([]string{}, p2...), p...)
+		}
 		idx := paramIndex(top, root)
 		if idx < 0 {
 			return
@@ -105,6 +109,11 @@ func (e *effState) writes(fn *ssa.Function) []paramWrite {
 			case *ssa.MapUpdate:
 				for _, mo := range e.w.Origins(x.Map, nil) {
 					root, p := accessPath(mo)
+					// a local struct that was initialised by copying a struct out of the parameter's
+					// memory shares its maps (slices, pointers) with the original
+					if r2, p2, ok := structCopySource(root); ok && len(p) > 0 && !fieldFreshlySet(mo, in) {
+						root, p = r2, append(append([]string{}, p2...), p...)
+					}
 					if idx := paramIndex(top, root); idx >= 0 {
 						// a map reachable from the parameter (or the parameter itself when it is a map)
 						out = append(out, paramWrite{Param: idx, Path: strings.Join(append(p, "[map]"), "."), Pos: in.Pos()})
@@ -603,4 +612,72 @@ func leafOrigins(w *World, v ssa.Value, depth int) []ssa.Value {
 		out = append(out, o)
 	}
 	return out
+}
+
+// structCopySource: root is a local variable of struct type whose only whole-value store copies a
+// struct loaded from some address; returns that address's access path (the copy shares every
+// reference-typed field - maps, slices, pointers - with it).
+func structCopySource(root ssa.Value) (ssa.Value, []string, bool) {
+	a, ok := root.(*ssa.Alloc)
+	if !ok {
+		return nil, nil, false
+	}
+	if _, isStruct := derefType(a.Type()).Underlying().(*types.Struct); !isStruct {
+		return nil, nil, false
+	}
+	var src ssa.Value
+	n := 0
+	if refs := a.Referrers(); refs != nil {
+		for _, rf := range *refs {
+			if st, ok := rf.(*ssa.Store); ok && st.Addr == ssa.Value(a) {
+				n++
+				if ld, ok := st.Val.(*ssa.UnOp); ok && ld.Op == token.MUL {
+					src = ld.X
+				}
+			}
+		}
+	}
+	if n != 1 || src == nil {
+		return nil, nil, false
+	}
+	r, p := accessPath(src)
+	if len(p) == 0 {
+		return nil, nil, false
+	}
+	return r, p, true
+}
+
+// fieldFreshlySet: v is a load of a field of a local struct, and a store of a freshly made value
+// (make / composite literal) to that very field dominates the use: the local no longer shares
+// that field with the struct it was copied from.
+func fieldFreshlySet(v ssa.Value, use ssa.Instruction) bool {
+	ld, ok := v.(*ssa.UnOp)
+	if !ok || ld.Op != token.MUL {
+		return false
+	}
+	fa, ok := ld.X.(*ssa.FieldAddr)
+	if !ok {
+		return false
+	}
+	a, ok := fa.X.(*ssa.Alloc)
+	if !ok || a.Referrers() == nil {
+		return false
+	}
+	for _, rf := range *a.Referrers() {
+		fa2, ok := rf.(*ssa.FieldAddr)
+		if !ok || fa2.Field != fa.Field || fa2.Referrers() == nil {
+			continue
+		}
+		for _, u := range *fa2.Referrers() {
+			st, ok := u.(*ssa.Store)
+			if !ok || st.Addr != ssa.Value(fa2) || !dominatesInstr(st, use) {
+				continue
+			}
+			switch stripConv(st.Val).(type) {
+			case *ssa.MakeMap, *ssa.MakeSlice, *ssa.Alloc:
+				return true
+			}
+		}
+	}
+	return false
 }
